@@ -238,10 +238,83 @@ fn e_v6(e: &err::ipv6::SliceError) -> ObsErr {
     }
 }
 
+/// `IpSlice::header()` - the version-independent view `IpHeadersSlice` - is a second door onto the same
+/// headers: whatever it says that the slice itself does not say is appended to the view's header text, so
+/// that the dispatching front end then differs from its siblings.
+fn headers_slice_doors(b: &[u8], s: &IpSlice) -> String {
+    let h = s.header();
+    let mut bad: Vec<String> = vec![];
+    let p = s.payload();
+    // header bytes end where the payload starts (an empty payload has no position of its own)
+    if !p.payload.is_empty() {
+        let start = p.payload.as_ptr() as usize - b.as_ptr() as usize;
+        if h.header_len() != start {
+            bad.push(format!("header_len() = {} but the payload starts at {}", h.header_len(), start));
+        }
+    }
+    if h.version() != b[0] >> 4 || h.is_ipv4() != (b[0] >> 4 == 4) || h.is_ipv6() != (b[0] >> 4 == 6) {
+        bad.push(format!("version() = {}, is_ipv4() = {}, is_ipv6() = {}", h.version(), h.is_ipv4(), h.is_ipv6()));
+    }
+    if h.source_addr() != s.source_addr() || h.destination_addr() != s.destination_addr() {
+        bad.push(format!("addresses {} -> {} but the slice says {} -> {}", h.source_addr(), h.destination_addr(), s.source_addr(), s.destination_addr()));
+    }
+    let (base_next, kinds): (u8, Vec<u8>) = match s {
+        IpSlice::Ipv4(v) => (v.header().protocol().0, v.extensions().auth.iter().map(|_| 51).collect()),
+        IpSlice::Ipv6(v) => (
+            v.header().next_header().0,
+            v.extensions()
+                .clone()
+                .into_iter()
+                .take(64)
+                .map(|e| match e {
+                    Ipv6ExtensionSlice::HopByHop(_) => 0,
+                    Ipv6ExtensionSlice::Routing(_) => 43,
+                    Ipv6ExtensionSlice::Fragment(_) => 44,
+                    Ipv6ExtensionSlice::DestinationOptions(_) => 60,
+                    Ipv6ExtensionSlice::Authentication(_) => 51,
+                })
+                .collect(),
+        ),
+    };
+    if h.next_header().0 != base_next {
+        bad.push(format!("next_header() = {} but the base header says {}", h.next_header().0, base_next));
+    }
+    if (h.ipv4().is_some(), h.ipv4_exts().is_some(), h.ipv6().is_some(), h.ipv6_exts().is_some()) != (h.is_ipv4(), h.is_ipv4(), h.is_ipv6(), h.is_ipv6()) {
+        bad.push("ipv4()/ipv4_exts()/ipv6()/ipv6_exts() do not hand out exactly the variant held".into());
+    }
+    // the struct-shaped parts of the view follow the struct rules (documented on try_to_header): only
+    // compared when every extension kind occurs once, i.e. when the chain fits the struct
+    let mut k = kinds.clone();
+    k.sort();
+    k.dedup();
+    if k.len() == kinds.len() {
+        if h.payload_ip_number() != p.ip_number {
+            bad.push(format!("payload_ip_number() = {} but the payload says {}", h.payload_ip_number().0, p.ip_number.0));
+        }
+        if let (Ok(th), Ok((ih, _))) = (h.try_to_header(), IpHeaders::from_slice(b)) {
+            if th != ih {
+                bad.push(format!("try_to_header() = {:?} but IpHeaders::from_slice gives {:?}", th, ih));
+            }
+        }
+    }
+    if bad.is_empty() {
+        String::new()
+    } else {
+        format!(" !! IpSlice::header(): {}", bad.join("; "))
+    }
+}
+
 fn fe_ip_slice(b: &[u8]) -> IpRes {
     match IpSlice::from_slice(b) {
-        Ok(IpSlice::Ipv4(s)) => Ok(view4(b, &s.header(), &s.extensions(), s.payload().payload, s.payload().ip_number, s.payload().fragmented, s.payload().len_source, false, None)),
-        Ok(IpSlice::Ipv6(s)) => Ok(view6(b, &s.header(), s.extensions(), s.payload().payload, s.payload().ip_number, s.payload().fragmented, s.payload().len_source, false, None)),
+        Ok(s) => {
+            let extra = headers_slice_doors(b, &s);
+            let mut v = match &s {
+                IpSlice::Ipv4(s) => view4(b, &s.header(), &s.extensions(), s.payload().payload, s.payload().ip_number, s.payload().fragmented, s.payload().len_source, false, None),
+                IpSlice::Ipv6(s) => view6(b, &s.header(), s.extensions(), s.payload().payload, s.payload().ip_number, s.payload().fragmented, s.payload().len_source, false, None),
+            };
+            v.header.push_str(&extra);
+            Ok(v)
+        }
         Err(err::ip::SliceError::Len(l)) => Err(obs_len(&l)),
         Err(err::ip::SliceError::IpHeaders(h)) => Err(headers_err(&h)),
     }
